@@ -923,6 +923,9 @@ func c07CrossScenarios(prop string) func(tier string) []scenario {
 			}
 			if k.Client {
 				prm.Sep = true
+				// (under C19, with a compressor in every execution, one preemption is more than 140 k
+				// executions: the quick tier explores the first minute of the depth-first order and says
+				// so in its evidence (exhaustive: false for this unit); thorough completes it)
 				scs = append(scs, scenario{Name: prm.name(), Cfg: pw, Setup: c07WSetup(prm)})
 				prm.Sep = false
 			}
